@@ -13,6 +13,7 @@ import os
 
 import vlib
 
+QUICK_CLASSES = {("FE14", "EnglishNA"), ("FE10", "Spanish"), ("FE13", "Japanese"), ("FE9", "Dutch")}   # MC_LayeredFS!ClassesQuick
 TWINS = {}   # (game, lang) -> {requested raw path: twin record printed by TLC}  (filled by generate)
 MUTATING = ("write", "create_dir", "write_archive", "write_text_archive")
 LIST_OPS = ("list", "subdirectories")
@@ -63,7 +64,8 @@ def observations(e, sandwich):
     comps = e["p"]["c"]
     obs = []
     locs = [True, False] if e["loc"] else [False]
-    for n in range(len(comps) - 1, max(len(comps) - 3, -1), -1):      # the parent and the grandparent directory
+    # C13: the parent and the grandparent directory; C12: the parent directory
+    for n in range(len(comps) - 1, max(len(comps) - (3 if sandwich == "c13" else 2), -1), -1):
         d = comps[:n]
         for l2 in locs:
             if sandwich == "c13":
@@ -79,7 +81,8 @@ def observations(e, sandwich):
     return obs
 
 
-def build_cases(states, events, keep, twins=False, chunk=12, readback=True, sandwich=None, mutations=None):
+def build_cases(states, events, keep, twins=False, chunk=12, readback=True, sandwich=None, mutations=None,
+                sandwich_state=None):
     """One case per state with all non-mutating calls on one materialisation, and cases of <= chunk mutating
     calls each of which starts from a fresh materialisation of the state (fresh LayeredFilesystem object).
     sandwich: every mutation is preceded and followed by the observations() of its target on the SAME object (and
@@ -103,7 +106,7 @@ def build_cases(states, events, keep, twins=False, chunk=12, readback=True, sand
             # read-after-write: the same path with the same localisation choice is read back (and looked up) on the
             # same directories right after each write
             follow = [_q(op, e["p"]["c"], e["p"]["t"], e["loc"]) for op in ("read", "file_exists", "resolve")]
-        if sandwich:
+        if sandwich and (sandwich == "c13" or e["op"] == "create_dir" or e.get("data") == [1, 2, 3] or e.get("fix") == "le"):
             obs = observations(e, sandwich)
             e["before"] = obs
             e["clone_then"] = obs
@@ -125,6 +128,12 @@ def build_cases(states, events, keep, twins=False, chunk=12, readback=True, sand
             qs, ms = [with_twin(e) for e in q], [with_twin(e) for e in m]
         if qs:
             cases.append(dict(base, events=qs, fresh=False))
+        if sandwich and sandwich_state and not sandwich_state(s):
+            # the observe-mutate-observe sandwiches run on a subset of the states (time budget)
+            ms = [] if sandwich == "c13" else [{k: v for k, v in e.items() if k not in ("before", "clone_then")} for e in ms]
+            for e in ms:
+                if "then" in e:
+                    e["then"] = e["then"][:3]
         for k in range(0, len(ms), chunk):
             cases.append(dict(base, events=ms[k:k + chunk], fresh=True))
     # the statement does not restrict how the caller spells a layer root: plain, trailing '/', "<root>/x/../lN",
@@ -228,6 +237,17 @@ def pre_state_of(events, k):
     return None
 
 
+CALL_FIELDS = ("op", "p", "raw", "loc", "data", "glob", "fix")
+
+
+def history_of(events, k):
+    """the run up to event k: (reset event, calls issued on that filesystem object before event k)"""
+    for r in range(k - 1, -1, -1):
+        if events[r]["op"] == "reset":
+            return events[r], [{f: e[f] for f in CALL_FIELDS if f in e} for e in events[r + 1:k] if e["op"] not in ("new", "abort")]
+    return None, []
+
+
 def _short(e):
     raw = bytes(e.get("raw", [])).decode("utf8", "replace")
     d = {"op": e["op"], "path": raw, "loc": e.get("loc")}
@@ -269,7 +289,10 @@ def report(ctx, events, bad, owns, direction):
             sig["game"], sig["lang"] = pre["game"], pre["lang"]
         elif "game" in e:
             sig["game"], sig["lang"] = e["game"], e["lang"]
-        ctx.violation(sig, {"pre": pre, "event": e, "index": k})
+        rs, hist = history_of(events, k)
+        ctx.violation(sig, {"pre": pre, "event": e, "index": k,
+                            "run": {"start": rs["post"], "roots": rs.get("roots"), "roots_k": rs.get("roots_k", 0),
+                                    "calls_before": hist[-400:]} if rs and len(hist) <= 400 else None})
     for k, e in enumerate(events):
         if e["op"] == "abort":
             ctx.violation({"dir": direction, "op": "abort", "outcome": e["outcome"], "signal": e["signal"], "what": e["what"]},
@@ -281,24 +304,31 @@ def report(ctx, events, bad, owns, direction):
 
 
 def replay_one(ctx, rp, binary):
-    """re-run one recorded violation: materialise its pre-state, apply the call, let TLC judge again"""
+    """re-run one recorded violation: materialise the state its run started from (same spelling of the layer roots),
+    issue the calls that preceded it on one filesystem object, then the call; TLC judges again.  (Calls that were made
+    on a clone of the object are re-issued on the object itself.)"""
     d = rp["detail"]
-    if not d.get("pre") or "event" not in d:
+    if "event" not in d or not (d.get("run") or d.get("pre")):
         print("no replayable state recorded:", json.dumps(rp["sig"]))
         return
     e = d["event"]
-    ev = {k: e[k] for k in ("op", "p", "raw", "loc", "data", "glob", "fix") if k in e}
-    case = {"game": d["pre"]["game"], "lang": d["pre"]["lang"], "layers": d["pre"]["layers"], "events": [ev], "fresh": True,
-            "twins": False}
+    ev = {k: e[k] for k in CALL_FIELDS if k in e}
+    if d.get("run"):
+        case = {"game": d["pre"]["game"], "lang": d["pre"]["lang"], "layers": d["run"]["start"],
+                "events": d["run"]["calls_before"] + [ev], "fresh": False, "twins": False, "roots": d["run"]["roots_k"]}
+    else:
+        case = {"game": d["pre"]["game"], "lang": d["pre"]["lang"], "layers": d["pre"]["layers"], "events": [ev], "fresh": True,
+                "twins": False}
     events, unb = replay(ctx, binary, [case], "one")
     if unb:
         raise vlib.ToolError("cannot re-establish the recorded state: %s" % unb[0].get("why"))
     bad = validate(ctx, events, "one")
     for k in bad:
         print("rejected again:", json.dumps(_short(events[k])))
+    if bad:
         ctx.violation(rp["sig"], d)
-    if not bad:
-        print("accepted now:", json.dumps([_short(x) for x in events if x["op"] not in ("reset",)]))
+    else:
+        print("accepted now:", json.dumps(_short(events[-1])))
 
 
 def nontrivial_event(e):
@@ -328,6 +358,15 @@ def count_nontrivial(events):
     return len(seen)
 
 
+def pick_sandwich_states(states, gi):
+    """first generator run: the states of the model checker's four quick classes; second run (states one mutation
+    deep): every third state"""
+    if gi == 0:
+        return lambda s: (s["game"], s["lang"]) in QUICK_CLASSES
+    chosen = {json.dumps(s, sort_keys=True) for s in states[::3]}
+    return lambda s: json.dumps(s, sort_keys=True) in chosen
+
+
 def run_fs(ctx, laws, keep, owns, profile=None, twins=False, post=None, lz=False, unsupported_games=False, sandwich=None,
            mutations=None):
     """model check -> generate -> replay -> validate -> (record -> validate).  Returns (replayed events, recorded events)."""
@@ -350,7 +389,8 @@ def run_fs(ctx, laws, keep, owns, profile=None, twins=False, post=None, lz=False
             deeper = sorted((s for s in states if s["depth"] > 0), key=lambda s: json.dumps(s, sort_keys=True))
             states = deeper[::2]
         n_states += len(states)
-        cases = build_cases(states, alphabet, keep, twins=twins, readback=not twins, sandwich=sandwich, mutations=mutations)
+        cases = build_cases(states, alphabet, keep, twins=twins, readback=not twins, sandwich=sandwich, mutations=mutations,
+                            sandwich_state=pick_sandwich_states(states, gi))
         if unsupported_games and gi == 0:
             # LayeredFilesystem::new on the games the statement does not list: an "unsupported" error (op "new")
             for g in ("FE11", "FE12"):
